@@ -94,6 +94,10 @@ class Interp:
         self.unresolved = []
         self.cb_calls = []
         self.call_log = []        # (qualname, {param: AV at entry}, result)
+        # parallel to call_log: undecided-branch depth / weak-update depth at
+        # the call and the calling function
+        self.call_meta = []
+        self.cond_tests = []      # undecided If tests currently open
         self.cond = 0
         self.weak = 0
         self.fresh_n = 0
@@ -183,6 +187,11 @@ class Interp:
             return TOP('recursion')
         self.visited_fns.add(fn.qualname)
         env = {}
+        from . import poly as _poly0
+        order0 = list(_poly0.ORDER_FACTS)
+        if not entry and order0:
+            # ordering facts are about size SYMBOLS: they hold in the callee
+            env['$order'] = tuple(order0)
         params = fn.params
         if fn.cls is not None and params and params[0] == 'self':
             env['self'] = self_ if self_ is not None else TOP()
@@ -210,6 +219,8 @@ class Interp:
                 else:
                     env[name] = TOP('missing-arg')
             args0 = dict(env)
+            cond0, weak0 = self.cond, self.weak
+            tests0 = list(self.cond_tests)
             body = fn.node.body
             split = (self.opts.get('split') or {}).get(fn.qualname)
             if split and not any((fn.qualname, t) in (self.opts.get('assume')
@@ -256,9 +267,14 @@ class Interp:
             res = self.join_returns(rets)
             if len(self.call_log) < 20000:
                 self.call_log.append((fn.qualname, args0, res))
+                self.call_meta.append({
+                    'cond': cond0, 'weak': weak0, 'tests': tests0,
+                    'caller': self.stack[-2].fn.qualname
+                    if len(self.stack) > 1 else None})
             return res
         finally:
             self.stack.pop()
+            _poly0.ORDER_FACTS[:] = order0
 
     def join_returns(self, rets):
         if not rets:
@@ -339,6 +355,14 @@ class Interp:
                 else:
                     out[n] = tuple(f for f in vals[0]
                                    if all(f in v for v in vals[1:]))
+                continue
+            if n == '$bdefs':
+                if len(vals) < len(envs):
+                    out[n] = {}
+                else:
+                    out[n] = {k: v for k, v in vals[0].items()
+                              if all(w.get(k) is not None and w[k][0] is v[0]
+                                     for w in vals[1:])}
                 continue
             if n == '$facts':
                 common = set(vals[0])
@@ -475,7 +499,38 @@ class Interp:
         v = self.eval(st.value, env)
         for t in st.targets:
             self.assign(t, v, env, st)
+        self._note_bool_defs(st, env)
         return [Outcome('next', env)]
+
+    def _note_bool_defs(self, st, env):
+        """``flag = <test expression>``: remember the expression, so that a
+        later ``if flag`` / ``x if not flag else y`` yields the facts of the
+        expression itself.  An entry dies when one of its names is re-bound."""
+        defs = dict(env.get('$bdefs', {}))
+        stored = {n.id for t in st.targets for n in ast.walk(t)
+                  if isinstance(n, ast.Name) and isinstance(n.ctx, ast.Store)}
+        for nm in list(defs):
+            if nm in stored or (defs[nm][1] & stored):
+                del defs[nm]
+        pairs = []
+        if len(st.targets) == 1:
+            t, v = st.targets[0], st.value
+            if isinstance(t, ast.Name):
+                pairs.append((t, v))
+            elif isinstance(t, ast.Tuple) and isinstance(v, ast.Tuple) and \
+                    len(t.elts) == len(v.elts):
+                pairs.extend(zip(t.elts, v.elts))
+        for t, v in pairs:
+            if isinstance(t, ast.Name) and isinstance(
+                    v, (ast.BoolOp, ast.Compare)) or (
+                    isinstance(t, ast.Name) and isinstance(v, ast.UnaryOp)
+                    and isinstance(v.op, ast.Not)):
+                used = frozenset(n.id for n in ast.walk(v)
+                                 if isinstance(n, ast.Name))
+                if t.id not in used:
+                    defs[t.id] = (v, used)
+        if defs or '$bdefs' in env:
+            env['$bdefs'] = defs
 
     def st_AnnAssign(self, st, env):
         if st.value is not None:
@@ -493,7 +548,7 @@ class Interp:
             self.effect('array-write', cur, st)
             res = res.copy(org=cur.org)
             if isinstance(t, ast.Name):
-                env[t.id] = res
+                self.rebind_array(env, t.id, cur, res)
             elif isinstance(t, ast.Subscript):
                 base = self.eval(t.value, env)
                 if base.k in ('list', 'dict'):
@@ -502,7 +557,7 @@ class Interp:
                     # writing a region of base: taint / orth of base change
                     nb = base.copy(orth=None, taint=base.taint | res.taint,
                                    lg=None)
-                    env[t.value.id] = nb
+                    self.rebind_array(env, t.value.id, base, nb)
                 elif base.k == 'arr':
                     self._store_into_element(t.value, base, res, env, st)
             elif isinstance(t, ast.Attribute):
@@ -514,6 +569,59 @@ class Interp:
             return [Outcome('next', env)]
         self.assign(t, res, env, st)
         return [Outcome('next', env)]
+
+    def rebind_array(self, env, name, old, new):
+        """In-place change of the array bound to ``name``: every list that
+        holds the IDENTICAL abstract object (``G = Z[k]`` / ``for G in Z``)
+        sees the new contents too (must-alias by object identity)."""
+        env[name] = new
+        if old is None or old is new:
+            return
+        seen = set()
+
+        def walk(v, depth):
+            if not isinstance(v, AV) or id(v) in seen or depth > 3:
+                return
+            seen.add(id(v))
+            if v.k in ('list', 'tuple') and v.items is not None:
+                for i, x in enumerate(v.items):
+                    if x is old:
+                        if v.k == 'list':
+                            v.items[i] = new
+                    else:
+                        walk(x, depth + 1)
+            elif v.k == 'dict' and v.keys:
+                for kk, x in list(v.keys.items()):
+                    if x is old:
+                        v.keys[kk] = new
+                    else:
+                        walk(x, depth + 1)
+        for n, v in list(env.items()):
+            if n != name and isinstance(v, AV):
+                if v is old:
+                    env[n] = new
+                else:
+                    walk(v, 0)
+
+    def write_through(self, t, res, env, st):
+        """Store ``res`` into the buffer denoted by expression ``t``
+        (``out=t``): same object, new contents."""
+        cur = self.eval(t, env)
+        if cur.k not in ('arr',) and not (cur.k == 'top' and cur.org):
+            return
+        self.effect('array-write', cur, st)
+        new = res.copy(org=cur.org)
+        if isinstance(t, ast.Name):
+            self.rebind_array(env, t.id, cur, new)
+        elif isinstance(t, ast.Subscript):
+            base = self.eval(t.value, env)
+            if base.k in ('list', 'dict'):
+                self.store_subscript(t, new, env, st, same_object=True)
+            elif base.k == 'arr' and isinstance(t.value, ast.Name):
+                nb = base.copy(orth=None, taint=base.taint | res.taint,
+                               lg=None, deg=None, delta=None, src=None,
+                               nonneg=False, normed=False, note=None)
+                self.rebind_array(env, t.value.id, base, nb)
 
     def _store_into_element(self, tnode, base, res, env, st):
         """A[k][...] op= v  : update facets of element A[k] held in a list."""
@@ -579,11 +687,17 @@ class Interp:
         self.add_order(e1, st.test, True)
         self.add_order(e2, st.test, False)
         self.cond += 1
+        kinds = set()
+        for nm in ast.walk(st.test):
+            if isinstance(nm, ast.Name) and isinstance(env.get(nm.id), AV):
+                kinds.add(env[nm.id].k)
+        self.cond_tests.append((st.test, frozenset(kinds)))
         try:
             o1 = self.exec_block(st.body, e1)
             o2 = self.exec_block(st.orelse, e2)
         finally:
             self.cond -= 1
+            self.cond_tests.pop()
         n1 = [o.env for o in o1 if o.kind == 'next']
         n2 = [o.env for o in o2 if o.kind == 'next']
         rest = [o for o in o1 + o2 if o.kind != 'next']
@@ -656,21 +770,43 @@ class Interp:
             parts = list(test.values)
         if isinstance(test, ast.UnaryOp) and isinstance(test.op, ast.Not):
             return self.add_fact(env, test.operand, not pol)
+        for p in parts:
+            # a boolean temporary stands for its defining expression
+            if isinstance(p, ast.Name) and p.id in env.get('$bdefs', {}):
+                self.add_fact(env, env['$bdefs'][p.id][0], pol)
         facts = tuple(env.get('$facts', ()))
         for p in parts:
             facts = facts + ((model.norm_src(mod, p), pol),)
+            # the guarded scalar keeps the fact when it is passed on to a
+            # helper:  |x| > c  (or  not |x| <= c)  marks the VALUE of x
+            from .npmodel import _guards
+            for nm in {n.id for n in ast.walk(p) if isinstance(n, ast.Name)}:
+                v = env.get(nm)
+                if isinstance(v, AV) and v.k in ('float', 'int') and \
+                        not v.has_const() and v.note is None and \
+                        _guards(model.norm_src(mod, p), pol, nm):
+                    env[nm] = v.copy(note='nonzero')
         env['$facts'] = facts
 
     def st_While(self, st, env):
         results = []
         cur = env
-        rounds = 2
-        for _ in range(rounds):
+        rounds = 2              # iterations explored with an UNDECIDED test
+        n_und = 0
+        for _ in range(UNROLL_CAP):
             cond = self.eval(st.test, cur)
             t = self.truth(cond)
             if t is False:
                 break
             undecided = t is None
+            # ``while True`` (and any test without a variable) never turns
+            # false by itself: explored like an undecided loop
+            endless = t is True and not any(
+                isinstance(x, ast.Name) for x in ast.walk(st.test))
+            if undecided or endless:
+                n_und += 1
+                if n_und > rounds:
+                    break
             if undecided:
                 self.cond += 1
                 self.weak += 1
@@ -1025,7 +1161,7 @@ class Interp:
             return BOOL()
         r = FLOAT(taint=arr.taint, lg=arr.lg, unit=arr.unit,
                   deg=arr.deg if arr.deg is not None else {},
-                  cnt=arr.cnt)
+                  cnt=arr.cnt, nonneg=bool(arr.nonneg))
         if isinstance(arr.src, tuple) and arr.src and arr.src[0] == 'cumsum':
             r.src = arr.src
         return r
@@ -1130,7 +1266,7 @@ class Interp:
                     nb.items = its
                 if base.uninit:
                     nb.uninit = base.uninit
-                env[target.value.id] = nb
+                self.rebind_array(env, target.value.id, base, nb)
             else:
                 self._store_into_element(target.value, base, v, env, st)
             return
